@@ -40,7 +40,7 @@ LIT_VALUES = [None, True, False, 0, 1, -1, 5, 127, 128, -128, -129, 255, 256, 32
               2**63 - 1, 2**63, -2**63, 2**64 - 1, 1.5, -0.25, 0.1, 100.125, 10.0, -3.0, 0.0, 255.0, 256.0, -129.0, 4294967296.0,
               "", "hi", "a\"b", "0", "42", "-7", "+5", "-", "+", "--1", "1 ", " 1", "1_0", "0x10", "９", "300", "-129", "65536", "4294967296", "9223372036854775807", "9223372036854775808",
               "-9223372036854775808", "-9223372036854775809", "18446744073709551615", "18446744073709551616", "1.5", "-0.25", "1.50", ".5", "5.", ".", "1.2.3", "abc",
-              "true", "false", "TRUE", "True", "yes", "YES", "1", "no", "on",
+              "true", "false", "TRUE", "True", "yes", "YES", "1", "no", "on", "inf", "-inf", "NaN", "infinity", "+Infinity", "nan",
               [], ["a"], [1, 2], [None], {}, {"k": "v"}]
 
 
@@ -53,6 +53,9 @@ def float_ok(v):
         return abs(v) < 10**15
     if sum(ch.isdigit() for ch in v) > 15 or re.fullmatch(r"-[0.]*", v) and any(ch == "0" for ch in v):
         return False
+    # (`inf`, `NaN`, `infinity` as STRINGS are in: Rust's f64 parser accepts them, they have no literal — finding F17-9, repaired)
+    if re.fullmatch(r"[+-]?(inf|infinity|nan)", v, re.I):
+        return True
     return not re.search(r"[eE]|inf|nan", v, re.I)
 
 
